@@ -188,7 +188,7 @@ package rules
 //@   props C01 C08
 //@   requires len(r.sc) > 0
 //@   ensures req.n > old(req.n) && req.arg0[old(req.n)] == ctx
-//@   assert at call compositeSubjectCreator_.Execute#1: old(r.slashesHandling) != config2.EncodedSlashesOff || !hasEncodedSlash(request.URL.RawPath)
+//@   assert at call compositeSubjectCreator_.Execute#1@211f5ea0.1: old(r.slashesHandling) != config2.EncodedSlashesOff || !hasEncodedSlash(request.URL.RawPath)
 //@   ensures auth.n == old(auth.n) ==> ret1 != nil && ret0 == nil && step.n == old(step.n) && ehl.n == old(ehl.n) && Is(ret1, heimdall.ErrArgument)
 //@   ensures ret1 != nil ==> ret0 == nil
 //@   ensures ret1 == nil ==> (spe.n > old(spe.n) && spe.arg0[spe.n-1] == ctx && spe.arg1[spe.n-1] != nil) || (auth.n > old(auth.n) && auth.ret1[auth.n-1] == nil && step.n == old(step.n) + len(r.sh) + len(r.fi) && forall k int :: old(step.n) <= k && k < step.n ==> step.ret0[k] == nil || continueOnError(step.arg0[k]))
@@ -328,31 +328,31 @@ package rules
 //@   ensures ret0 != nil ==> r.index == old(r.index) && r.knownRules == old(r.knownRules)
 //@   ensures ret0 == nil ==> tclone.n == old(tclone.n) + 1 && r.index == tclone.ret0[old(tclone.n)]
 //@   ensures mlock.n == munlock.n - old(munlock.n) + old(mlock.n)
-//@   assert at call Clone#1: callarg0 == r.index && mlock.n == old(mlock.n) + 1 && mlock.arg0[old(mlock.n)] == &r.knownRulesMutex && munlock.n == old(munlock.n)
-//@   assert at call addRulesTo#1: callarg1 == tclone.ret0[tclone.n - 1] && callarg1 != r.index
-//@   assert at store index#1: stored == tclone.ret0[tclone.n - 1] && mlock.n == old(mlock.n) + 2 && mlock.arg0[old(mlock.n) + 1] == &r.rulesTreeMutex && munlock.n == old(munlock.n)
-//@   assert at store knownRules#1: mlock.n == old(mlock.n) + 1 && munlock.n == old(munlock.n)
+//@   assert at call Clone#1@1f36d663.1: callarg0 == r.index && mlock.n == old(mlock.n) + 1 && mlock.arg0[old(mlock.n)] == &r.knownRulesMutex && munlock.n == old(munlock.n)
+//@   assert at call addRulesTo#1@66ed5e54.1: callarg1 == tclone.ret0[tclone.n - 1] && callarg1 != r.index
+//@   assert at store index#1@1ec014f1.1: stored == tclone.ret0[tclone.n - 1] && mlock.n == old(mlock.n) + 2 && mlock.arg0[old(mlock.n) + 1] == &r.rulesTreeMutex && munlock.n == old(munlock.n)
+//@   assert at store knownRules#1@bc606c30.1: mlock.n == old(mlock.n) + 1 && munlock.n == old(munlock.n)
 
 // UpdateRuleSet / DeleteRuleSet: the same discipline as AddRuleSet
 //@ func (*repository).UpdateRuleSet
 //@   props C06 C07
 //@   ensures ret0 != nil ==> r.index == old(r.index) && r.knownRules == old(r.knownRules)
 //@   ensures ret0 == nil ==> tclone.n == old(tclone.n) + 1 && r.index == tclone.ret0[old(tclone.n)]
-//@   assert at call Clone#1: callarg0 == r.index && mlock.n == old(mlock.n) + 1 && mlock.arg0[old(mlock.n)] == &r.knownRulesMutex && munlock.n == old(munlock.n)
-//@   assert at call removeRulesFrom#1: callarg1 == tclone.ret0[tclone.n - 1] && callarg1 != r.index
-//@   assert at call addRulesTo#1: callarg1 == tclone.ret0[tclone.n - 1] && callarg1 != r.index
-//@   assert at store index#1: stored == tclone.ret0[tclone.n - 1] && mlock.n == old(mlock.n) + 2 && mlock.arg0[old(mlock.n) + 1] == &r.rulesTreeMutex && munlock.n == old(munlock.n)
-//@   assert at store knownRules#1: mlock.n == old(mlock.n) + 1 && munlock.n == old(munlock.n)
-//@   assert at store knownRules#2: mlock.n == old(mlock.n) + 1 && munlock.n == old(munlock.n)
+//@   assert at call Clone#1@1f36d663.1: callarg0 == r.index && mlock.n == old(mlock.n) + 1 && mlock.arg0[old(mlock.n)] == &r.knownRulesMutex && munlock.n == old(munlock.n)
+//@   assert at call removeRulesFrom#1@77c27462.1: callarg1 == tclone.ret0[tclone.n - 1] && callarg1 != r.index
+//@   assert at call addRulesTo#1@af1fb597.1: callarg1 == tclone.ret0[tclone.n - 1] && callarg1 != r.index
+//@   assert at store index#1@1ec014f1.1: stored == tclone.ret0[tclone.n - 1] && mlock.n == old(mlock.n) + 2 && mlock.arg0[old(mlock.n) + 1] == &r.rulesTreeMutex && munlock.n == old(munlock.n)
+//@   assert at store knownRules#1@2837d8d9.1: mlock.n == old(mlock.n) + 1 && munlock.n == old(munlock.n)
+//@   assert at store knownRules#2@dbcc22b9.1: mlock.n == old(mlock.n) + 1 && munlock.n == old(munlock.n)
 
 //@ func (*repository).DeleteRuleSet
 //@   props C06 C07
 //@   ensures ret0 != nil ==> r.index == old(r.index) && r.knownRules == old(r.knownRules)
 //@   ensures ret0 == nil ==> tclone.n == old(tclone.n) + 1 && r.index == tclone.ret0[old(tclone.n)]
-//@   assert at call Clone#1: callarg0 == r.index && mlock.n == old(mlock.n) + 1 && mlock.arg0[old(mlock.n)] == &r.knownRulesMutex && munlock.n == old(munlock.n)
-//@   assert at call removeRulesFrom#1: callarg1 == tclone.ret0[tclone.n - 1] && callarg1 != r.index
-//@   assert at store index#1: stored == tclone.ret0[tclone.n - 1] && mlock.n == old(mlock.n) + 2 && mlock.arg0[old(mlock.n) + 1] == &r.rulesTreeMutex && munlock.n == old(munlock.n)
-//@   assert at store knownRules#1: mlock.n == old(mlock.n) + 1 && munlock.n == old(munlock.n)
+//@   assert at call Clone#1@1f36d663.1: callarg0 == r.index && mlock.n == old(mlock.n) + 1 && mlock.arg0[old(mlock.n)] == &r.knownRulesMutex && munlock.n == old(munlock.n)
+//@   assert at call removeRulesFrom#1@b76ab7d6.1: callarg1 == tclone.ret0[tclone.n - 1] && callarg1 != r.index
+//@   assert at store index#1@1ec014f1.1: stored == tclone.ret0[tclone.n - 1] && mlock.n == old(mlock.n) + 2 && mlock.arg0[old(mlock.n) + 1] == &r.rulesTreeMutex && munlock.n == old(munlock.n)
+//@   assert at store knownRules#1@a2da3ff2.1: mlock.n == old(mlock.n) + 1 && munlock.n == old(munlock.n)
 
 // lookups read the published index under the read lock, which is released on every way out
 //@ func (*repository).FindRule
@@ -361,7 +361,7 @@ package rules
 //@   ensures tfind.ret1[old(tfind.n)] != nil && r.dr != nil ==> ret1 == nil && ret0 == iface(r.dr)
 //@   ensures tfind.ret1[old(tfind.n)] != nil && r.dr == nil ==> ret0 == nil && ret1 != nil && Is(ret1, heimdall.ErrNoRuleFound)
 //@   ensures tfind.ret1[old(tfind.n)] == nil ==> ret1 == nil
-//@   assert at call Find#1: callarg1 == ite(len(req.ret0[req.n - 1].URL.URL.RawPath) != 0, req.ret0[req.n - 1].URL.URL.RawPath, req.ret0[req.n - 1].URL.URL.Path)
-//@   assert at store Captures#1: stored == tfind.ret0[tfind.n - 1].Parameters
+//@   assert at call Find#1@950e34fc.1: callarg1 == ite(len(req.ret0[req.n - 1].URL.URL.RawPath) != 0, req.ret0[req.n - 1].URL.URL.RawPath, req.ret0[req.n - 1].URL.URL.Path)
+//@   assert at store Captures#1@bd941b9d.1: stored == tfind.ret0[tfind.n - 1].Parameters
 //@   ensures mrunlock.n == old(mrunlock.n) + 1 && mrlock.n == old(mrlock.n) + 1
-//@   assert at call Find#1: callarg0 == r.index && mrlock.n == old(mrlock.n) + 1 && mrlock.arg0[old(mrlock.n)] == &r.rulesTreeMutex && mrunlock.n == old(mrunlock.n)
+//@   assert at call Find#1@950e34fc.1: callarg0 == r.index && mrlock.n == old(mrlock.n) + 1 && mrlock.arg0[old(mrlock.n)] == &r.rulesTreeMutex && mrunlock.n == old(mrunlock.n)
